@@ -1,5 +1,5 @@
 from mindsdb_sql.parser.ast.base import ASTNode
-from mindsdb_sql.parser.utils import indent
+from mindsdb_sql.parser.utils import indent, kw_parameters_to_string
 
 
 class CreateKnowledgeBase(ASTNode):
@@ -53,17 +53,15 @@ class CreateKnowledgeBase(ASTNode):
             f"FROM ({self.from_query.get_string()})" if self.from_query else ""
         )
 
-        using_ar = []
+        params = {}
         if self.storage:
-            using_ar.append(f"  STORAGE={self.storage.to_string()}")
+            params['storage'] = self.storage
         if self.model:
-            using_ar.append(f"  MODEL={self.model.to_string()}")
-
-        params = self.params.copy()
+            params['model'] = self.model
+        if self.params:
+            params.update(self.params)
         if params:
-            using_ar += [f"{k}={repr(v)}" for k, v in params.items()]
-        if using_ar:
-            using_str = "USING " + ", ".join(using_ar)
+            using_str = "USING " + kw_parameters_to_string(params)
         else:
             using_str = ""
 
